@@ -2,6 +2,12 @@
 (* Judge for C13.                                                           *)
 EXTENDS AV1, TraceIO
 VARIABLES l, st
+HugeReason(e) ==     \* one item of about 17 MB: the harness reports lengths and equality facts (the bytes do not travel)
+  IF e.res # "ok" THEN "huge_item_panic"
+  ELSE IF e.nfrags = 0 THEN "huge_item_no_packets"
+  ELSE IF e.maxlen > e.mtu THEN "huge_item_fragment_exceeds_mtu"
+  ELSE IF \E k \in 1..Len(e.facts) : ~e.facts[k] THEN "huge_item_not_reproduced"
+  ELSE ""
 PayloadReason(e) ==
   IF e.res # "ok" THEN "payload_panic"
   ELSE IF LET r == ReadStream(e.stream, 1, <<>>) IN ~r.ok \/ r.obus # e.obus THEN "oracle_stream"
@@ -30,6 +36,7 @@ HdrReason(e) ==
   ELSE ""
 Reason(e) ==
   CASE e.ev = "payload" -> PayloadReason(e)
+    [] e.ev = "huge" -> HugeReason(e)
     [] e.ev = "leb" -> LebReason(e)
     [] e.ev = "obuhdr" -> HdrReason(e)
     [] OTHER -> "unknown_event"
